@@ -185,6 +185,25 @@ def m (d : Dialect) (s : List Nat) : Re → Nat → MS → List MS
   | .look _ _, _, _ => []          -- not in the portable subset
   | .backref _, _, _ => []         -- not in the portable subset
 
+/-- may match the empty string (syntactic, conservative) -/
+def nullable : Re → Bool
+  | .empty | .bol | .eol | .wordb | .nwordb => true
+  | .group r | .ncgroup r => nullable r
+  | .seq a b => nullable a && nullable b
+  | .alt a b => nullable a || nullable b
+  | .quant r q _ => q.min == 0 || nullable r
+  | .look _ _ => true
+  | _ => false
+
+/-- every quantified body consumes at least one character and contains no capturing group: the
+    sub-subset on which RepeatMatcher's two ES5-specific rules (capture reset, empty-iteration
+    check) cannot be observed -/
+def Re.simpleLoops : Re → Bool
+  | .quant r _ _ => !nullable r && r.ngroups == 0 && r.simpleLoops
+  | .group r | .ncgroup r | .look _ r => r.simpleLoops
+  | .seq a b | .alt a b => a.simpleLoops && b.simpleLoops
+  | _ => true
+
 /-- [[Match]](S, i): the best match of the whole pattern starting exactly at `i` -/
 def matchAt (d : Dialect) (r : Re) (s : List Nat) (i : Nat) : Option MS :=
   (m d s r 0 { pos := i, caps := List.replicate r.ngroups none }).head?
